@@ -196,9 +196,13 @@ def main():
     here = os.path.dirname(os.path.abspath(__file__))
     sys.path.insert(0, here)
     facts = list(FACTS)
+    import_failures = {}
     for extra in sorted(f for f in os.listdir(here) if f.startswith("facts_") and f.endswith(".py")):
-        m = __import__(extra[:-3])
-        facts.extend(m.FACTS)
+        try:
+            m = __import__(extra[:-3])
+            facts.extend(m.FACTS)
+        except Exception as e:  # noqa: BLE001  (a broken fact module must not take the others down)
+            import_failures[extra] = f"{type(e).__name__}: {e}"
     lines = [
         "(* GENERATED by tools/extract_facts.py from /repo on every run. Do not edit. *)",
         "From Coq Require Import List String ZArith QArith.",
@@ -211,9 +215,13 @@ def main():
     for name, ty, fn in facts:
         try:
             val = fn()
-        except (Shape, SyntaxError, FileNotFoundError, KeyError, IndexError, AttributeError, ValueError, TypeError) as e:  # fail closed
-            val = SENTINEL[ty]
+        except Exception as e:  # noqa: BLE001  fail closed: any problem => sentinel value
+            val = SENTINEL.get(ty)
             failures[name] = f"{type(e).__name__}: {e}"
+            if val is None:
+                # no sentinel of that type: omit the definition, every user then fails to compile (fail closed)
+                lines.append(f"(* fact {name} could not be extracted *)")
+                continue
         lines.append(f"Definition {name} : {ty} := {val}.")
     text = "\n".join(lines) + "\n"
     old = None
@@ -223,7 +231,7 @@ def main():
         with open(out_v, "w") as f:
             f.write(text)
     with open(out_json, "w") as f:
-        json.dump(dict(failures=failures, ast_hashes=ast_hashes(), changed=(old != text)), f, indent=1)
+        json.dump(dict(failures=failures, import_failures=import_failures, ast_hashes=ast_hashes(), changed=(old != text)), f, indent=1)
     print(json.dumps(dict(facts=len(facts), failures=failures, changed=(old != text))))
 
 
